@@ -98,6 +98,8 @@ void archiveCases(Ctx& ctx, int part)
 	for (std::size_t i = 0; i < pool.size(); ++i) { sets.push_back({ pool[i] }); for (std::size_t j = i + 1; j < pool.size(); ++j) { sets.push_back({ pool[i], pool[j] }); for (std::size_t l = j + 1; l < pool.size(); ++l) sets.push_back({ pool[i], pool[j], pool[l] }); } }
 	// names that differ in one punctuation character of a pair 0x20 apart, and names with consecutive dots
 	for (auto& tw : std::vector<std::vector<std::string>>{ { "slot[1].txt", "slot{1].txt" }, { "a]b", "a}b" }, { "x\\y", "x|y" }, { "p^q", "p~q" }, { "m@n", "m`n" }, { "v..2.txt", "v.2.txt", "v2.txt" }, { "..a", "a..", ".a." }, { "[", "{", "a" } }) sets.push_back(tw);
+	// one archive of 300 members (lookups far from both ends of the index)
+	{ std::vector<std::string> big; for (int i = 0; i < 300; ++i) big.push_back(std::string(1, char(i % 3 ? 'm' : 'M')) + std::to_string((i * 77) % 300) + (i % 5 == 0 ? "_" : i % 5 == 1 ? "-" : "") + std::string(1, char('a' + i % 26)) + (i % 4 ? ".bin" : ".TXT")); sets.push_back(big); }
 	for (auto& names : sets) {
 		if (int(k++ % 8) != part) continue;
 		bool dup = false; for (std::size_t i = 0; i < names.size(); ++i) for (std::size_t j = i + 1; j < names.size(); ++j) if (ref::equalFold(names[i], names[j])) dup = true;
